@@ -44,6 +44,10 @@ pub enum Op {
     /// the oldest such sibling block itself arrives (a valid side block: an uncle candidate - but one
     /// the main chain already includes)
     LateUncle,
+    /// four forged blocks on the block three below the tip (with other timestamps): the last three
+    /// blocks are detached; when the fork point lies below an epoch boundary the new branch enters
+    /// the epoch with statistics of its own
+    DeepReorg,
 }
 
 #[derive(Clone, Copy, Debug, Serialize, Deserialize, PartialEq, Eq, Hash)]
@@ -51,6 +55,10 @@ pub enum Limit {
     Bytes(u64),
     Cycles(u64),
     Loose,
+    /// no tight limit, dynamic difficulty: epochs of 4, 8, 16 blocks, each with the target its
+    /// branch's statistics give (two branches forking below an epoch boundary enter equally
+    /// numbered epochs with different targets)
+    LooseDynamic,
 }
 
 fn world(limit: Limit) -> WorldOpts {
@@ -63,6 +71,10 @@ fn world(limit: Limit) -> WorldOpts {
         // always_success costs 537 cycles
         Limit::Cycles(l) => w.max_block_cycles = Some(l),
         Limit::Loose => {}
+        Limit::LooseDynamic => {
+            w.permanent_difficulty = false;
+            w.genesis_compact_target = ckb_types::utilities::difficulty_to_compact(ckb_types::U256::from(1u64 << 24));
+        }
     }
     w
 }
@@ -258,6 +270,27 @@ impl Runner {
                     trace.push(format!("foreign block #{} embeds an unseen sibling of #{} as uncle", b.number(), tip.number()));
                     late.push(u);
                 }
+                Op::DeepReorg => {
+                    if tip.number() < 4 {
+                        return Ok(None);
+                    }
+                    self.drv.clock += BLOCK_INTERVAL_MS;
+                    set_time(self.drv.clock);
+                    let main = self.drv.node.main_chain();
+                    let mut parent = main[tip.number() as usize - 3].hash();
+                    let mut last = None;
+                    for j in 0..4u64 {
+                        // later than the detached blocks' timestamps, increasing, not in the future
+                        let b = self.twin.build_on(&parent, &BlockSpec { miner: 5, timestamp: Some(self.drv.clock - (3 - j) * 1_000 - 1), ..Default::default() })?;
+                        self.drv.node.process(&b).map_err(|e| format!("forged block of the deep reorganisation refused: {e}"))?;
+                        parent = b.hash();
+                        last = Some(b);
+                    }
+                    if self.drv.node.tip().hash() != last.as_ref().unwrap().hash() {
+                        return Err("the forged branch of the deep reorganisation did not become the main chain".into());
+                    }
+                    trace.push(format!("deep reorg: #{}..#{} detached, 4 forged blocks attached", tip.number() - 2, tip.number()));
+                }
                 Op::LateUncle => {
                     if late.is_empty() {
                         return Ok(None);
@@ -378,7 +411,7 @@ impl Runner {
             .collect();
         // siblings delivered and not yet included as uncles
         let siblings: Vec<usize> = hist.iter().enumerate().filter(|(_, o)| matches!(o, Op::Uncle | Op::Reorg)).map(|(i, _)| hist[..i].iter().filter(|o| matches!(o, Op::Mine | Op::Foreign)).count()).collect();
-        let embedded: Vec<(usize, bool)> = hist.iter().enumerate().filter(|(_, o)| matches!(o, Op::ForeignUncle | Op::LateUncle)).map(|(i, o)| (hist[..i].iter().filter(|o| matches!(o, Op::Mine | Op::Foreign | Op::ForeignUncle)).count(), *o == Op::LateUncle)).collect();
+        let embedded: Vec<(usize, bool)> = hist.iter().enumerate().filter(|(_, o)| matches!(o, Op::ForeignUncle | Op::LateUncle | Op::DeepReorg)).map(|(i, o)| (hist[..i].iter().filter(|o| matches!(o, Op::Mine | Op::Foreign | Op::ForeignUncle)).count(), *o == Op::LateUncle)).collect();
         let f = fp(&(self.limit, &pool, &chain, &siblings, &embedded));
         if let Ok(path) = std::env::var("C13_LOG") {
             use std::io::Write;
@@ -405,6 +438,7 @@ fn worlds(tier: Tier) -> Vec<(Limit, usize)> {
         w.push((Limit::Bytes(1_600), 5));
         w.push((Limit::Cycles(537 * 3 + 100), 4));
         w.push((Limit::Loose, 4));
+        w.push((Limit::LooseDynamic, 3));
         // every even byte limit across the 3-transaction boundary with 0..3 proposals, and with one uncle
         for l in (1_326..=1_366).step_by(2) {
             w.push((Limit::Bytes(l), 3));
@@ -425,6 +459,7 @@ fn worlds(tier: Tier) -> Vec<(Limit, usize)> {
         w.push((Limit::Bytes(1_212), 2));
         w.push((Limit::Cycles(537 * 3), 2));
         w.push((Limit::Loose, 2));
+        w.push((Limit::LooseDynamic, 2));
     }
     w
 }
@@ -447,6 +482,8 @@ fn seeds() -> Vec<Vec<Op>> {
         vec![Op::Submit(0), Op::Submit(6), Op::Submit(7), Op::Submit(4), Op::Mine, Op::Submit(5), Op::Submit(3), Op::Submit(1), Op::Uncle, Op::Mine],
         // a foreign block has embedded an uncle this node has not seen yet
         vec![Op::Mine, Op::ForeignUncle],
+        // inside the second epoch (genesis epoch: blocks 0..3), a template for the next block built
+        vec![Op::Mine, Op::Mine, Op::Mine, Op::Mine, Op::Mine],
     ]
 }
 
@@ -454,7 +491,7 @@ pub fn meta(tier: Tier) -> Meta {
     Meta {
         id: "C13",
         level: "model_checking",
-        rule: "state = operation history over {Submit(t) for 9 designed transactions (chain of three, a join, a dep user and the dep cell's spender, two independent ones, a conflicting replacement), Mine (seal and process the node's own template), Uncle (a forged sibling of the tip arrives), Reorg (two forged blocks on the tip's parent detach the tip), Foreign (a forged block on the tip proposes three of the transactions before they are submitted), ForeignUncle (a forged block on the tip embeds as uncle a sibling of the tip this node has not seen), LateUncle (that sibling block itself arrives)} replayed on a real node with tx-pool and block assembler, in a family of worlds: block byte limits on and around the packing boundaries of the universe (three transactions with 0..3 proposals, with an uncle), block cycle limits on and around 2, 3, 4 transactions, and no tight limit (proposal limit 3 in all; 4-block epochs; proposal window 2..4); BFS from eight seed histories (empty; a foreign block that embedded an unseen uncle; ids proposed by a foreign block before the transactions arrive; four proposed txs; chain + join proposed; one block before the epoch boundary; a fresh tip with three proposed and several unproposed pending txs, without and with an uncle candidate), dedup on (pool entries with stage and links, chain content, siblings delivered). After EVERY operation: the template returned immediately (if it still names the previous tip it is checked on that parent) and the template naming the current tip are sealed (dummy PoW, fresh nonce) and processed by a twin node (chain only) positioned on the named parent: must be accepted; and against the pool dump: every template tx has all its pooled parents earlier in the template, no cell is spent twice, proposals within the limit. non-trivial = state with a proposed tx or an uncle candidate.",
+        rule: "state = operation history over {Submit(t) for 9 designed transactions (chain of three, a join, a dep user and the dep cell's spender, two independent ones, a conflicting replacement), Mine (seal and process the node's own template), Uncle (a forged sibling of the tip arrives), Reorg (two forged blocks on the tip's parent detach the tip), Foreign (a forged block on the tip proposes three of the transactions before they are submitted), ForeignUncle (a forged block on the tip embeds as uncle a sibling of the tip this node has not seen), LateUncle (that sibling block itself arrives), DeepReorg (four forged blocks on the block three below the tip)} replayed on a real node with tx-pool and block assembler, in a family of worlds: block byte limits on and around the packing boundaries of the universe (three transactions with 0..3 proposals, with an uncle), block cycle limits on and around 2, 3, 4 transactions, no tight limit, and no tight limit with dynamic difficulty (epochs of 4, 8, 16 blocks whose targets follow each branch's own statistics) (proposal limit 3 in all; 4-block epochs; proposal window 2..4); BFS from eight seed histories (empty; a foreign block that embedded an unseen uncle; ids proposed by a foreign block before the transactions arrive; four proposed txs; chain + join proposed; one block before the epoch boundary; a fresh tip with three proposed and several unproposed pending txs, without and with an uncle candidate), dedup on (pool entries with stage and links, chain content, siblings delivered). After EVERY operation: the template returned immediately (if it still names the previous tip it is checked on that parent) and the template naming the current tip are sealed (dummy PoW, fresh nonce) and processed by a twin node (chain only) positioned on the named parent: must be accepted; and against the pool dump: every template tx has all its pooled parents earlier in the template, no cell is spent twice, proposals within the limit. non-trivial = state with a proposed tx or an uncle candidate.",
         assumptions: &["template requests are made right after each operation, at quiescence, and at the two gates between the phases of every tip change (blank template / pool updated / template refilled); other moments relative to the assembler's message processing are whatever the real threads produce", "notify scripts / HTTP notification of templates are outside"],
         bounds: json!({"worlds_and_depth_from_seed": worlds(tier).iter().map(|(l, d)| format!("{l:?}:{d}")).collect::<Vec<_>>(), "seeds": seeds().len()}),
     }
@@ -479,7 +516,7 @@ pub fn run(ctx: &Ctx) -> Report {
         return report;
     }
     let mut ops: Vec<Op> = (0..NAMES.len()).map(Op::Submit).collect();
-    ops.extend([Op::Mine, Op::Uncle, Op::Reorg, Op::Foreign, Op::ForeignUncle, Op::LateUncle]);
+    ops.extend([Op::Mine, Op::Uncle, Op::Reorg, Op::Foreign, Op::ForeignUncle, Op::LateUncle, Op::DeepReorg]);
     let mut ri = 0u64;
     for (limit, depth) in worlds(ctx.tier) {
         let mut runner: Option<Runner> = None;
